@@ -19,4 +19,4 @@ exec java -Xss${TLC_XSS:-512m} ${TLC_XMX:--Xmx4g -Xmn48m} ${TLC_GC:--XX:+UseSeri
   -Dtlc2.overrides.TLCOverrides=tlc2.overrides.TLCOverrides:wowsrp.Overrides \
   ${TLC_JAVA_OPTS} \
   -cp /opt/veriftools/tla/tla2tools.jar:/opt/veriftools/tla/CommunityModules-deps.jar:"$V/out/classes" \
-  tlc2.TLC -metadir "$W/meta" -cleanup -noGenerateSpecTE -config "$CFG" "$@" "$MOD.tla"
+  tlc2.TLC -nowarning -metadir "$W/meta" -cleanup -noGenerateSpecTE -config "$CFG" "$@" "$MOD.tla"
